@@ -99,6 +99,8 @@ class SubsectionIO(RawIOBase):
 
     @_raise_if_file_closed
     def write(self, data: bytes) -> int:
+        # any buffer is written byte by byte, like an ordinary file does: a view of wider items is not measured in items
+        data = memoryview(data).cast('B')
         if self._seek > self._size:
             # attempting to write past subsection
             return 0
